@@ -769,6 +769,7 @@ type regGen struct {
 	routes  []regGenRoute
 	nRes    int
 	bufLen  map[int]int
+	usedRes map[string]bool
 	thor    bool
 }
 
@@ -904,6 +905,11 @@ func (g *regGen) resource() {
 		res = fmt.Sprintf("u%03d", mask)
 	}
 	base := g.r.Pick([]string{"/", "/", "/v" + fmt.Sprint(rid) + "/", "/v" + fmt.Sprint(rid) + "/x/"})
+	if g.usedRes[res] {
+		// two resources of one controller type under one prefix would register the same paths twice
+		base = "/v" + fmt.Sprint(rid) + "/"
+	}
+	g.usedRes[res] = true
 	g.ops = append(g.ops, fmt.Sprintf("resource %d ptr %s %s %d %d %s", rid, hx(base), hx(res), mask, um, g.arg(true)))
 	acts := [][]string{{"GET"}, {"GET"}, {"POST"}, {"GET"}, {"GET"}, {"PUT", "PATCH"}, {"DELETE"}}
 	for a := 0; a < 7; a++ {
@@ -981,7 +987,7 @@ func (g *regGen) probes() {
 }
 
 func (regEngine) Gen(r *Rand, tier string) Case {
-	g := &regGen{r: r, nextTag: 2000, nextRid: 900, bufLen: map[int]int{}, thor: tier == "thorough"}
+	g := &regGen{r: r, nextTag: 2000, nextRid: 900, bufLen: map[int]int{}, usedRes: map[string]bool{}, thor: tier == "thorough"}
 	g.ops = append(g.ops, fmt.Sprintf("new %d", r.Intn(2)))
 	tag := "plain"
 	if r.Chance(1, 6) {
